@@ -75,6 +75,14 @@ Section Runners.
   Definition r_vclip (lo hi : ty p) (xs : list (ty p)) :=
     enc_res (enc p) (vclip (dict p) (lt p) lo hi xs).
   Definition r_vabs (xs : list (ty p)) := enc_res (enc p) (vabs (dict p) (iabs p) xs).
+  (* v.titer().vshift(n1, f1).shift(n2, f2).ffill(f3).vabs() *)
+  Definition r_pipe (n1 : Z) (f1 : option (ty p)) (n2 : Z) (f2 : ty p) (f3 : option (ty p))
+             (xs : list (ty p)) :=
+    enc_res (enc p)
+      (do a <- vshift (dict p) n1 f1 xs;
+       do b <- shift n2 f2 a;
+       do c <- ffill (dict p) f3 b;
+       vabs (dict p) (iabs p) c).
 End Runners.
 
 (* MapBasic::abs exists only for Number items (f64, i32) *)
